@@ -178,6 +178,12 @@ pub fn inputs_of_base(plan: &Plan, b: u64, corpus: &[(String, Vec<u8>)]) -> Vec<
                 if hostile::MODEL_OPS[op] == "many_links_to_big_tilemap" && (r > 0 || b % 16 != 7 || plan.mode == Mode::Walk || plan.mode == Mode::Digest) {
                     continue; // a 4-16 M tile map: one base in sixteen, loading only (memory / totality)
                 }
+                if hostile::MODEL_OPS[op] == "palette_hundreds_of_thousands" && (r > 0 || b % 16 != 11) {
+                    continue; // 1.8 MB: one base in sixteen
+                }
+                if hostile::MODEL_OPS[op] == "tilemap_huge_off_canvas" && (r > 0 || b % 16 != 13 || plan.mode == Mode::Mem || plan.mode == Mode::Load) {
+                    continue; // only where images are rendered: one base in sixteen, every build
+                }
                 if hostile::MODEL_OPS[op] == "tileset_million_tiny_tiles" && (r > 0 || b % 16 != 9 || plan.mode == Mode::Walk || plan.mode == Mode::Digest) {
                     continue; // millions of tiles: one base in sixteen, loading only (memory / totality)
                 }
@@ -211,7 +217,7 @@ pub fn inputs_of_base(plan: &Plan, b: u64, corpus: &[(String, Vec<u8>)]) -> Vec<
         out.extend(hostile::unstructured_inputs(&base, &mut rng, if thorough { 240 } else { 80 }));
     }
     // size cap of the exploration (deep nests are exempt up to 2 MiB)
-    out.retain(|i| i.bytes.len() <= plan.size_cap || ((i.operator == "model:nested_groups" || i.operator == "model:sparse_cel_table") && i.bytes.len() <= 2 * 1024 * 1024) || (i.operator == "model:tileset_strip_height_u32" && i.bytes.len() <= 16 * 1024 * 1024));
+    out.retain(|i| i.bytes.len() <= plan.size_cap || ((i.operator == "model:nested_groups" || i.operator == "model:sparse_cel_table" || i.operator == "model:palette_hundreds_of_thousands") && i.bytes.len() <= 2 * 1024 * 1024) || (i.operator == "model:tileset_strip_height_u32" && i.bytes.len() <= 16 * 1024 * 1024));
     out
 }
 
@@ -419,7 +425,7 @@ pub fn worker_main(ctx: &Ctx, a: WorkerArgs) -> i32 {
                 first_base = false;
                 for (s, input) in inputs.iter().enumerate().skip(start as usize) {
                     // (deep group nests always run: stack depth per call differs most in the unoptimised build)
-                    if sub_sample > 1 && s != 0 && input.operator != "model:nested_groups" && ((s as u64 + b) % sub_sample != 0 || input.operator == "model:tilemap_extent_i32" || input.operator == "model:tileset_strip_height_u32" || input.operator == "model:palette_colliding_keys") {
+                    if sub_sample > 1 && s != 0 && input.operator != "model:nested_groups" && input.operator != "model:tilemap_huge_off_canvas" && ((s as u64 + b) % sub_sample != 0 || input.operator == "model:tilemap_extent_i32" || input.operator == "model:tileset_strip_height_u32" || input.operator == "model:palette_colliding_keys") {
                         // (the unoptimised build needs minutes per rendering of a 2^31-pixel tilemap extent)
                         continue;
                     }
